@@ -31,6 +31,7 @@ void generate(sim::Rng &r, uint64_t seed, const std::string &tier, sim::Plan &p)
   p.cfg["nprod"] = nprod;
   p.cfg["cb_sleep_ms"] = r.chance(400) ? r.range(1, 4) : 0;
   p.cfg["cb_yields"] = r.range(0, 2);
+  p.cfg["late_cb_ms"] = r.chance(250) ? r.range(1, 120) : 0;     // the sink is installed that long after initialize(): the back end has been through idle rounds by then
   unsigned fmask = 0;
   if (r.chance(500)) fmask |= sim::F_SPURIOUS;
   if (r.chance(500)) fmask |= sim::F_COND_ANY;
@@ -138,8 +139,9 @@ void execute(const sim::Plan &plan) {
     size_t end = begin;
     while (end < plan.ops.size() && plan.ops[end].kind != "cut") ++end;
     ++session;
-    // cleanup() drops the callback: it is set before every initialize()
-    pipe.setCallback([cb_sleep, cb_yields](const void *data, size_t size) {
+    // cleanup() drops the callback: it is set for every session, before initialize() or (late_cb_ms) some idle rounds after it
+    long late_cb_ms = std::max(0L, std::min(500L, plan.get("late_cb_ms")));
+    auto sink = [cb_sleep, cb_yields](const void *data, size_t size) {
       sim::hist(H_CB_ENTER, (long)size);
       if (sim::cell_add(C_IN_CB, 1) != 1) sim::violation("C10/sink-callbacks-overlap", "the sink callback was entered while a previous invocation had not returned");
       for (long k = 0; k < cb_yields; ++k) sim::yield();
@@ -148,8 +150,10 @@ void execute(const sim::Plan &plan) {
       ++sh.blocks;
       sim::cell_add(C_IN_CB, -1);
       sim::hist(H_CB_EXIT, (long)size);
-    });
+    };
+    if (late_cb_ms == 0) pipe.setCallback(sink);
     if (!pipe.initialize(cfg)) { sim::violation("C10/initialize-failed", sim::fmt("initialize() rejected a valid configuration (session %d)", session)); return; }
+    if (late_cb_ms > 0) { sim::sleep_ns(late_cb_ms * 1000000); pipe.setCallback(sink); sim::probe("sinks_installed_late"); }
     sim::cell_set(C_PRODUCERS_LEFT, nprod);
     std::vector<std::thread> th;
     for (long p = 0; p < nprod; ++p) th.emplace_back(producer_main, &sh, &plan, p, begin, end, seq0[(size_t)p]);
